@@ -19,6 +19,7 @@ LEVEL_TEXT += (' Also: (C03.C) a capture evaluates to Value::from_nodes(graph, m
 LEVEL_TEXT += (' The stanza-level full-match lookup is `nodes_for_capture_index(index).next()` failing only on no node (E2.x-c slice): a stricter lookup would skip matches of grouped patterns.')
 
 LEVEL_TEXT += (" (C03.C) the query cursor is run from tree.root_node() with the caller's source bytes as the text provider of predicates; (C06.E) the checker's stanza and statement loops reach a check on every cycle, so every stanza's capture and full-match indices are resolved.")
+LEVEL_TEXT += (' (C03.R) Capture.stanza_capture_index / file_capture_index / quantifier are written only by Capture::check, with capture_index_for_name / capture_quantifiers of the stanza and file query.')
 S_FIELDS = {"stanza_capture_index", "full_match_stanza_capture_index"}
 F_FIELDS = {"file_capture_index", "full_match_file_capture_index"}
 
@@ -501,6 +502,30 @@ def run(prog, rep):
     e3_driver.run_driver(prog, rep, rule="C01.D")
     full_match_lookup(prog, rep)
     # from_nodes
+    # what the checker resolves for a capture is exactly what the queries say: the three resolved fields are written once each, from
+    # the stanza query's / file query's own tables
+    rep.rule("C03.R", "ast::Capture.{stanza_capture_index, file_capture_index, quantifier} are written only by Capture::check, each with the query's own answer "
+                      "(capture_index_for_name of the stanza / file query; capture_quantifiers(file_query, stanza_index)[file_capture_index])")
+    WANT = {"stanza_capture_index": r"^cast\(\(Try::branch\(Option::ok_or_else\(Query::capture_index_for_name\(&\*\*arg:ctx\.stanza_query, .*arg:self\.name.*\) as Continue\)\.0\)$|^cast\(.*Query::capture_index_for_name\(&\*\*arg:ctx\.stanza_query, .*arg:self\.name",
+            "file_capture_index": r"^cast\(.*Query::capture_index_for_name\(&\*\*arg:ctx\.file_query, .*arg:self\.name",
+            "quantifier": r"^\*?Query::capture_quantifiers\(&\*\*arg:ctx\.file_query, \*arg:ctx\.stanza_index\)\[\*arg:self\.file_capture_index\]$"}
+    from ..lib.trace import canon_full
+    nr = 0
+    for g in sorted(prog.shape_fns(), key=lambda x: x.id):
+        if g.body is None or g.crate.prefix != "tsg":
+            continue
+        gtr = None
+        for b, idx, st in g.body.field_writes():
+            fl = [x for x in st["p"].get("p", []) if x["k"] == "field"]
+            if not fl or fl[-1].get("adt") != "tsg::ast::Capture" or fl[-1].get("name") not in WANT:
+                continue
+            gtr = gtr or Tracer(g.body)
+            nr += 1
+            val = canon_full(gtr.rvalue(st["rv"]))
+            okw = g.self_path == "tsg::ast::Capture" and g.name == "check" and re.match(WANT[fl[-1]["name"]], val) is not None
+            rep.check(okw, "C03.R", "%s :: Capture.%s #%d" % (g.id, fl[-1]["name"], nr), sp_str(st["sp"]), "the query's own answer",
+                      "Capture.%s is written with `%s`: what the block sees for this capture is no longer what tree-sitter reports for it" % (fl[-1]["name"], val[:160]))
+    rep.floor("C03.R", nr, 3, "writes of the resolved capture fields")
     rep.rule("C03.Q", "Value::from_nodes: One -> the first node, ZeroOrOne -> null or the node, ZeroOrMore/OneOrMore -> nodes.map(add_syntax_node).collect() in iterator order")
     fn = [f for f in prog.shape_fns() if f.name == "from_nodes" and f.self_path == "tsg::graph::Value"]
     if len(fn) != 1:
